@@ -111,7 +111,7 @@ def run(ctx):
                                                       "Controls": ctl_sets}, "num=3000"))
     jobs = []
     for label, consts, sim in configs:
-        consts = dict(consts, Emit="TRUE", Devs="{}", FixedPlan="<< >>")
+        consts = dict(consts, Emit="TRUE", Devs="{}", FixedPlan="<< >>", Dephase="FALSE")
         if sim:
             r = ctx.tlc("PTContract", CFG, label=label, constants=consts, workers=1,
                         simulate=sim + ",", extra=["-depth", "40", "-seed", str(ctx.seed + 11)])
